@@ -9,6 +9,7 @@ T8     a rejected symbol (processor returns None) reaches DecoderError before it
 T9     the ring queue: one allocation per decoder call, append-only, passed unchanged, consumed by one
        plain iteration in the second pass
 T10    index code (see C16)
+T11    symbol-budget accounting: the count a derivation returns equals the symbols it consumed (C17 TI1/TI2 shared)
 Not decided: symbol-budget accounting of nested branches, ignored tail, written neighbour order.
 """
 import ast
@@ -36,8 +37,9 @@ META = {
     "assumptions": ["grammar state is an int >= 0 at loop entry (checked at every call site: V0/V3)"],
     "level_text": "Static comparison of the extracted transition behaviour of every path of the derivation loop with the "
                   "published grammar; tables by constant folding. Decides the rule tables and state transitions for all "
-                  "inputs and tables (symbolic in state, capacity, symbol), not the budget accounting/neighbour order.",
-    "level_note": "Clause-level: transitions, tables, ring/branch parameters, rejection, ring-queue discipline. Known finding "
+                  "inputs and tables (symbolic in state, capacity, symbol), the start state, the consumed-symbol accounting of "
+                  "nested derivations (ghost counter) and the slot bookkeeping of the ring pass; not the full neighbour order.",
+    "level_note": "Clause-level: start state, transitions, tables, ring/branch parameters, rejection, ring-queue discipline and slot pairing, symbol-budget accounting. Known finding "
                   "F10 ([eps] accepted as [epsilon]). Trusted: spec tables, FM entailment, builtin effect table.",
     "technique": "path-sensitive abstract interpretation with linear facts (Fourier-Motzkin) + constant folding of tables vs spec",
 }
@@ -388,6 +390,21 @@ def run(ctx, rep):
     # what the decoder accepts for a symbol is a function of the symbol and the table in force, not of earlier tables
     from rules.shared import check_history_independence
     check_history_independence(ctx, rep, "T8")
+    # T9b: where the second pass puts a ring bond among an atom's bonds ("written neighbour order")
+    from rules.shared import check_ring_slot_pairing
+    check_ring_slot_pairing(ctx, rep, "T9")
+    # T11: "a branch derives Q + 1 symbols": the count a (nested) derivation returns to its caller is the number of symbols it
+    # took from the shared iterator -- index symbols and inner branches included -- so the enclosing branch's budget is
+    # charged exactly (the ghost-counter rules TI1 / TI2 of C17, shared)
+    from sa.core import Report
+    from rules import attrib
+    from rules.shared import import_obligations
+    sub = Report("C02")
+    roles17 = attrib.attrib_roles(ctx, dict(decmodel.find_roles(ctx)))
+    summ17 = attrib.reader_summary(ctx, sub, roles17["index_reader"], "TI1")
+    attrib.check_derivation(ctx, sub, roles17, summ17, "TI2", "_", "_")
+    import_obligations(rep, sub, {"TI1": "T11", "TI2": "T11"})
+    rep.floor("T11", 2)
     # T5 tables
     spec_b, spec_r = SPEC.branch_table(), SPEC.ring_table()
     fb, frg = m["tables"]["branch"], m["tables"]["ring"]
